@@ -39,10 +39,30 @@ impl RdpError {
     }
 }
 
+/// std::io::ErrorKind / std::io::Error stand-ins: an I/O error is opaque except for its kind (nothing is known about WHICH kind a failing
+/// transport reports: code that treats some kinds as success must satisfy its contract for every kind)
+#[derive(Debug, PartialEq, Eq, Clone, Copy)]
+pub enum ErrorKind { NotFound, PermissionDenied, ConnectionRefused, ConnectionReset, ConnectionAborted, NotConnected, AddrInUse, AddrNotAvailable, BrokenPipe,
+    AlreadyExists, WouldBlock, InvalidInput, InvalidData, TimedOut, WriteZero, Interrupted, Unsupported, UnexpectedEof, OutOfMemory, Other }
+impl vstd::std_specs::cmp::PartialEqSpecImpl for ErrorKind {
+    open spec fn obeys_eq_spec() -> bool { true }
+    open spec fn eq_spec(&self, other: &ErrorKind) -> bool { *self == *other }
+}
+#[verifier::external_body]
+#[derive(Debug)]
+pub struct IoError { _p: () }
+impl IoError {
+    pub uninterp spec fn kind_spec(&self) -> ErrorKind;
+    #[verifier::external_body]
+    pub fn kind(&self) -> (r: ErrorKind)
+        ensures r == self.kind_spec()
+    { unimplemented!() }
+}
+
 #[derive(Debug)]
 pub enum Error {
     RdpError(RdpError),
-    Io,
+    Io(IoError),
     SslHandshakeError,
     SslError,
     ASN1Error,
@@ -246,6 +266,12 @@ impl<T: CursorData> Cursor<T> {
     #[verifier::external_body]
     pub fn position(&self) -> (r: u64)
         ensures r == self.pos()
+    { unimplemented!() }
+
+    /// std Cursor::set_position: any position is accepted (beyond the end: nothing left to read)
+    #[verifier::external_body]
+    pub fn set_position(&mut self, pos: u64)
+        ensures final(self).data() == old(self).data(), final(self).pos() == pos
     { unimplemented!() }
 
     /// BufRead::fill_buf on a Cursor: the unread remainder
